@@ -6,7 +6,8 @@
    on_dial_failure operations with keys of length L; K is the bucket size (20 in litep2p). *)
 From Coq Require Import List Bool Arith NArith Permutation Sorted.
 From V.gen Require Consts.
-From V.C14 Require Import Model Proofs U256 GhostProofs.
+From Coq Require Import ZArith.
+From V.C14 Require Import Model Proofs U256 GhostProofs AddrModel AddrProofs.
 Import ListNotations.
 
 (* Placement: every peer stored in bucket i (everything except the address-less dummy that
@@ -467,6 +468,91 @@ Theorem C14_kad_is_table_history :
   k_table (kreach local K h) = reach local K (kflat local K (kad_empty (length local)) h).
 Proof. intros. unfold kreach, reach. apply krun_flat. Qed.
 Print Assumptions C14_kad_is_table_history.
+
+(* ---------------------------------------------------------------- the address stores of the entries
+
+   AddrModel.v carries one AddressStore per node next to the table of Model.v: rrun = any history
+   of rich operations (with their address lists) from the empty table. *)
+
+(* the table part of the rich run is the run of Model.v on the abstracted operations: every
+   theorem about `reach` applies to it *)
+Theorem C14_addr_refines_table :
+  forall cap local K h,
+  r_table (rrun cap local K (rempty (length local)) h) = reach local K (map abs_op h).
+Proof. intros. unfold reach. apply rrun_table. Qed.
+Print Assumptions C14_addr_refines_table.
+
+(* "has a known address" (the flag of Model.node that closest() filters on) is exactly "the
+   address store is not empty"; a store holds at most `cap` records and no address twice *)
+Theorem C14_addr_flag_is_store :
+  forall cap local K h, 1 <= cap ->
+  Forall2 (Forall2 (fun n st => n_addr n = nonempty st /\ length st <= cap /\ NoDup (map fst st)))
+          (r_table (rrun cap local K (rempty (length local)) h))
+          (r_stores (rrun cap local K (rempty (length local)) h)).
+Proof. intros cap local K h Hc. apply (rrun_ainv cap local K h _ Hc (rempty_ainv cap _)). Qed.
+Print Assumptions C14_addr_flag_is_store.
+
+Theorem C14_addr_constants :
+  S_FAIL = (-100)%Z /\ S_OK = 100%Z /\ S_BONUS = 1%Z /\ CAP = 64 /\ REPORT = 32.
+Proof. exact S_FAIL_val. Qed.
+Print Assumptions C14_addr_constants.
+
+(* AddressStore::insert never empties a store (so a peer never loses "has a known address") *)
+Theorem C14_addr_insert_never_empties :
+  forall cap s a sc v, 1 <= cap -> nonempty (fst (sinsert cap s a sc v)) = true.
+Proof. exact sinsert_nonempty. Qed.
+Print Assumptions C14_addr_insert_never_empties.
+
+(* KademliaPeer::addresses() — what FIND_NODE replies carry: min(32, n) addresses of the store,
+   in non-increasing score order, no address twice, and no address left out scores higher than
+   one that is reported (the store itself keeps up to 64) *)
+Theorem C14_addr_reported :
+  forall s,
+  length (peer_addresses s) = Nat.min 32 (length s) /\
+  StronglySorted (fun x y => (snd y <= snd x)%Z) (peer_addresses s) /\
+  (forall x, In x (peer_addresses s) -> In x s) /\
+  (forall x y, In x (peer_addresses s) -> In y s -> ~ In y (peer_addresses s) -> (snd y <= snd x)%Z) /\
+  (NoDup (map fst s) -> NoDup (map fst (peer_addresses s))).
+Proof. intro s. exact (reported_facts REPORT s). Qed.
+Print Assumptions C14_addr_reported.
+
+(* a dial failure re-scores exactly the failed address (to -100), a re-mention (score 0) does not
+   erase the score of a known address *)
+Theorem C14_addr_dial_failure_marks :
+  forall cap s a z v, sfind a s = Some z ->
+  sinsert cap s a S_FAIL v = (sset a S_FAIL s, IUpdated) /\
+  sfind a (sset a S_FAIL s) = Some S_FAIL /\
+  forall b, b <> a -> sfind b (sset a S_FAIL s) = sfind b s.
+Proof. exact dial_failure_marks. Qed.
+Print Assumptions C14_addr_dial_failure_marks.
+
+Theorem C14_addr_readd_keeps_score :
+  forall cap s a z v, sfind a s = Some z -> sinsert cap s a 0%Z v = (s, IKept).
+Proof. exact readd_keeps_score. Qed.
+Print Assumptions C14_addr_readd_keeps_score.
+
+(* ---------------------------------------------------------------- the extremes of the key space *)
+
+(* the bucket index is undefined exactly for the key itself (distance 0: the local node) *)
+Theorem C14_index_none_iff_same_key :
+  forall a b, length a = length b -> (ilog2 (kxor a b) = None <-> a = b).
+Proof. exact ilog2_none_iff. Qed.
+Print Assumptions C14_index_none_iff_same_key.
+
+(* keys that differ in the most significant bit (distance >= 2^(L-1)) go to the last bucket *)
+Theorem C14_index_top_bit :
+  forall x y a b, length a = length b -> xorb x y = true ->
+  ilog2 (kxor (x :: a) (y :: b)) = Some (length a).
+Proof. exact ilog2_top. Qed.
+Print Assumptions C14_index_top_bit.
+
+(* no ties: two different keys never have the same distance to a target, so the distance order
+   on stored peers is strict and total (`sort_by_key` never sees equal sort keys for different peers) *)
+Theorem C14_no_distance_ties :
+  forall t a b, length t = length a -> length t = length b -> a <> b ->
+  kxor t a <> kxor t b /\ (klt (kxor t a) (kxor t b) = true \/ klt (kxor t b) (kxor t a) = true).
+Proof. exact no_ties. Qed.
+Print Assumptions C14_no_distance_ties.
 
 (* the handler does not remove the requester from the reply: a requester that is stored with an
    address and is among the k closest to the target is sent back to itself *)
